@@ -76,7 +76,7 @@ func famLocalhost(e *env) {
 	}
 	lookup := func(k []byte) ([]byte, bool) { v, ok := index[string(k)]; return v, ok }
 
-	n := hx.N(800, 20000)
+	n := hx.N(860, 7000)
 	for i := 0; i < n; i++ {
 		// context: own height and revision
 		chainID := r.Pick([]string{"testchain1-1", "testchain1-1", "testchain1-7", "testchain", "a-b-3"})
@@ -252,7 +252,7 @@ func famLocalhost(e *env) {
 	}
 
 	// client operations addressed to the localhost client
-	m := hx.N(120, 3000)
+	m := hx.N(120, 600)
 	opNames := []string{"k-create", "k-update-header", "k-update-misbehaviour", "k-upgrade", "k-recover", "m-initialize", "m-verify-client-message", "m-recover", "m-upgrade", "m-check-misbehaviour", "m-update-state"}
 	for i := 0; i < m; i++ {
 		ctx, _ := base.CacheContext()
